@@ -81,6 +81,11 @@ def run(res, replay=None):
                 bs = sorted({float(t) for d in s['pop_sizes'].values() for t in d})
                 pre = [{'kind': 'ss', 'space': sp, 'what': rng.choice(['S', 'k'])},
                        {'kind': 'ss', 'space': sp, 'what': 'update_epoch', 't': bs[-1]}, {'kind': 'ss', 'space': sp, 'what': 'S'}]
+                if i % 4 == 3:
+                    # the object is re-pointed BEFORE anything was looked at (its states are first enumerated in a later epoch); a
+                    # statistic that uses this state space follows at once
+                    sp = 'lc' if i % 8 == 3 else 'bc'
+                    pre = [dict(o, space=sp) for o in pre[1:]] + [{'kind': 'attr', 'path': 'tree_height.mean' if sp == 'lc' else 'sfs.mean'}]
                 ops = pre + ops
             cases.append({'spec': s, 'ops': ops, 'cache': (rng.random() < 0.75) if i % 4 != 1 else False, 'parallelize': (i % 5 == 4)})
     if not replay:
